@@ -169,6 +169,13 @@ Fixpoint silent_fail (sc : list resp) (bud : N) : bool :=
       else negb (c <? 500)
   end.
 
+(* a 200 whose body was cut after at least one byte: the only kind of response after which
+   the patched and the pinned code behave differently *)
+Definition is_partial (r : resp) : bool :=
+  match r with RResp c b false => (c =? 200) && negb (is_nil b) | _ => false end.
+Definition no_partial (os : list origin) : bool :=
+  forallb (fun o => forallb (fun r => negb (is_partial r)) (script o)) os.
+
 (* ---- the property on one observed run (spec-based; uses the implementation's result and
    destination bytes only):
    (a) cluster download succeeded and origins are honest => the destination holds exactly the blob;
